@@ -66,12 +66,25 @@ class Lock:
 
 
 def strip_coq_comments(s):
-    out, depth, i = [], 0, 0
-    while i < len(s):
+    """removes (nested) comments and string literals, so that the hygiene scan sees only code"""
+    out, depth, i, n = [], 0, 0, len(s)
+    while i < n:
         if s.startswith("(*", i):
             depth += 1; i += 2
         elif s.startswith("*)", i) and depth:
             depth -= 1; i += 2
+        elif s[i] == '"':
+            # Coq string literal: "" is an escaped quote (strings inside comments are lexed too)
+            j = i + 1
+            while j < n:
+                if s[j] == '"':
+                    if j + 1 < n and s[j + 1] == '"':
+                        j += 2; continue
+                    break
+                j += 1
+            if not depth:
+                out.append('""')
+            i = j + 1
         else:
             if not depth:
                 out.append(s[i])
